@@ -22,7 +22,7 @@
 From Coq Require Import List Arith Lia Field Bool.
 From GB Require Import Base.Field Base.FNum Base.Tables Gauss.Moment1D Gauss.SPoly Model.Shell
   Model.MomentInt Model.DiffOp Model.OneElec Model.TwoElec Model.Eval
-  Proofs.MomentIntP Proofs.DiffOpP Proofs.EvalP.
+  Proofs.MomentIntP Proofs.DiffOpP Proofs.EvalP Proofs.BlockP.
 Import ListNotations.
 
 Section Rigid.
@@ -607,5 +607,308 @@ Proof.
   intros Hk Hj Hi. rewrite !(diffop_slice_valid K Kf) by assumption. apply iter_negA_parity.
 Qed.
 End ParityAxis.
+
+(* ---- the 3-D primitive is a product over the axes ---- *)
+Definition swap_xy {A} (c : A * A * A) : A * A * A := (snd (fst c), fst (fst c), snd c).
+Definition swap_yz {A} (c : A * A * A) : A * A * A := (fst (fst c), snd c, snd (fst c)).
+
+(* exchanging two axes of the tables exchanges the corresponding component / order indices *)
+Theorem prim3_swap_xy (t : table3 (F:=F)) (o ca cb : comp) :
+  prim3 K (swap_xy t) (swap_xy o) (swap_xy ca) (swap_xy cb) = prim3 K t o ca cb.
+Proof.
+  destruct t as [[tx ty] tz], o as [[ox oy] oz], ca as [[ax ay] az], cb as [[bx by_] bz].
+  unfold swap_xy, prim3. cbn [fst snd]. f_equal. ring.
+Qed.
+Theorem prim3_swap_yz (t : table3 (F:=F)) (o ca cb : comp) :
+  prim3 K (swap_yz t) (swap_yz o) (swap_yz ca) (swap_yz cb) = prim3 K t o ca cb.
+Proof.
+  destruct t as [[tx ty] tz], o as [[ox oy] oz], ca as [[ax ay] az], cb as [[bx by_] bz].
+  unfold swap_yz, prim3. cbn [fst snd]. f_equal. ring.
+Qed.
+
+(* the primitive norm does not care which axis carries which power *)
+Lemma norm_prim_swap_xy l (c : comp) alpha : norm_prim K l (swap_xy c) alpha = norm_prim K l c alpha.
+Proof.
+  destruct c as [[ax ay] az]. unfold swap_xy, norm_prim. cbn [fst snd].
+  replace (fdf_odd K ay * fdf_odd K ax * fdf_odd K az) with (fdf_odd K ax * fdf_odd K ay * fdf_odd K az)
+    by ring. reflexivity.
+Qed.
+Lemma norm_prim_swap_yz l (c : comp) alpha : norm_prim K l (swap_yz c) alpha = norm_prim K l c alpha.
+Proof.
+  destruct c as [[ax ay] az]. unfold swap_yz, norm_prim. cbn [fst snd].
+  replace (fdf_odd K ax * fdf_odd K az * fdf_odd K ay) with (fdf_odd K ax * fdf_odd K ay * fdf_odd K az)
+    by ring. reflexivity.
+Qed.
+
+(* the shell with two coordinate axes exchanged / one axis reflected (same exponents, coefficients,
+   type and component conventions: the conventions are those of the frame, not of the molecule) *)
+Definition swap_xy_shell (s : shell F) : shell F :=
+  mkShell F (s_l s) (s_y s) (s_x s) (s_z s) (s_exps s) (s_coeffs s) (s_sph s) (s_comps s) (s_labels s).
+Definition swap_yz_shell (s : shell F) : shell F :=
+  mkShell F (s_l s) (s_x s) (s_z s) (s_y s) (s_exps s) (s_coeffs s) (s_sph s) (s_comps s) (s_labels s).
+Definition reflect_x_shell (s : shell F) : shell F :=
+  mkShell F (s_l s) (- s_x s) (s_y s) (s_z s) (s_exps s) (s_coeffs s) (s_sph s) (s_comps s) (s_labels s).
+
+(* the per-primitive tables of the axis-exchanged system are the exchanged tables *)
+Theorem tabs_swap_xy Cx Cy Cz orders orders' sa sb : omax orders' = omax orders ->
+  tabs K Cy Cx Cz orders' (swap_xy_shell sa) (swap_xy_shell sb)
+  = map (map swap_xy) (tabs K Cx Cy Cz orders sa sb).
+Proof.
+  intros Ho. unfold tabs. rewrite Ho. cbn [swap_xy_shell s_x s_y s_z s_l s_exps].
+  rewrite map_map. apply map_ext; intros b. rewrite map_map. apply map_ext; intros a. reflexivity.
+Qed.
+Theorem tabs_swap_yz Cx Cy Cz orders orders' sa sb : omax orders' = omax orders ->
+  tabs K Cx Cz Cy orders' (swap_yz_shell sa) (swap_yz_shell sb)
+  = map (map swap_yz) (tabs K Cx Cy Cz orders sa sb).
+Proof.
+  intros Ho. unfold tabs. rewrite Ho. cbn [swap_yz_shell s_x s_y s_z s_l s_exps].
+  rewrite map_map. apply map_ext; intros b. rewrite map_map. apply map_ext; intros a. reflexivity.
+Qed.
+Theorem dtabs_swap_xy D sa sb :
+  dtabs K D (swap_xy_shell sa) (swap_xy_shell sb) = map (map swap_xy) (dtabs K D sa sb).
+Proof.
+  unfold dtabs. cbn [swap_xy_shell s_x s_y s_z s_l s_exps].
+  rewrite map_map. apply map_ext; intros b. rewrite map_map. apply map_ext; intros a. reflexivity.
+Qed.
+Theorem dtabs_swap_yz D sa sb :
+  dtabs K D (swap_yz_shell sa) (swap_yz_shell sb) = map (map swap_yz) (dtabs K D sa sb).
+Proof.
+  unfold dtabs. cbn [swap_yz_shell s_x s_y s_z s_l s_exps].
+  rewrite map_map. apply map_ext; intros b. rewrite map_map. apply map_ext; intros a. reflexivity.
+Qed.
+
+(* hence the array of primitive integrals handed to the contraction is the same array, read at the
+   exchanged component / order indices: both the moment family (overlap, multipole moments) ... *)
+Theorem prim_array_swap_xy Cx Cy Cz orders orders' sa sb (o ca cb : comp) :
+  omax orders' = omax orders ->
+  map (map (fun t => prim3 K t (swap_xy o) (swap_xy ca) (swap_xy cb)))
+      (tabs K Cy Cx Cz orders' (swap_xy_shell sa) (swap_xy_shell sb))
+  = map (map (fun t => prim3 K t o ca cb)) (tabs K Cx Cy Cz orders sa sb).
+Proof.
+  intros Ho. rewrite (tabs_swap_xy Cx Cy Cz orders orders' sa sb Ho).
+  rewrite map_map. apply map_ext; intros row. rewrite map_map. apply map_ext; intros t.
+  apply prim3_swap_xy.
+Qed.
+Theorem prim_array_swap_yz Cx Cy Cz orders orders' sa sb (o ca cb : comp) :
+  omax orders' = omax orders ->
+  map (map (fun t => prim3 K t (swap_yz o) (swap_yz ca) (swap_yz cb)))
+      (tabs K Cx Cz Cy orders' (swap_yz_shell sa) (swap_yz_shell sb))
+  = map (map (fun t => prim3 K t o ca cb)) (tabs K Cx Cy Cz orders sa sb).
+Proof.
+  intros Ho. rewrite (tabs_swap_yz Cx Cy Cz orders orders' sa sb Ho).
+  rewrite map_map. apply map_ext; intros row. rewrite map_map. apply map_ext; intros t.
+  apply prim3_swap_yz.
+Qed.
+(* ... and the derivative family (kinetic energy, momentum) *)
+Theorem dprim_array_swap_xy D sa sb (o ca cb : comp) :
+  map (map (fun t => prim3 K t (swap_xy o) (swap_xy ca) (swap_xy cb)))
+      (dtabs K D (swap_xy_shell sa) (swap_xy_shell sb))
+  = map (map (fun t => prim3 K t o ca cb)) (dtabs K D sa sb).
+Proof.
+  rewrite dtabs_swap_xy.
+  rewrite map_map. apply map_ext; intros row. rewrite map_map. apply map_ext; intros t.
+  apply prim3_swap_xy.
+Qed.
+Theorem dprim_array_swap_yz D sa sb (o ca cb : comp) :
+  map (map (fun t => prim3 K t (swap_yz o) (swap_yz ca) (swap_yz cb)))
+      (dtabs K D (swap_yz_shell sa) (swap_yz_shell sb))
+  = map (map (fun t => prim3 K t o ca cb)) (dtabs K D sa sb).
+Proof.
+  rewrite dtabs_swap_yz.
+  rewrite map_map. apply map_ext; intros row. rewrite map_map. apply map_ext; intros t.
+  apply prim3_swap_yz.
+Qed.
+
+(* reflection of the x axis at the level of the 3-D primitive product *)
+Theorem prim3_reflect_x Ax Bx Cx alpha beta la lb km (ty tz : list (list (list F))) (o ca cb : comp) :
+  (forall x, fapx K x = x) -> psum K alpha beta <> 0 -> 1 + 1 <> 0 ->
+  (fst (fst o) <= km)%nat -> (fst (fst ca) <= la)%nat -> (fst (fst cb) <= lb)%nat ->
+  prim3 K (table K (- Ax) (- Bx) (- Cx) alpha beta la lb km, ty, tz) o ca cb
+  = sg (fst (fst o) + fst (fst ca) + fst (fst cb))
+    * prim3 K (table K Ax Bx Cx alpha beta la lb km, ty, tz) o ca cb.
+Proof.
+  intros Hapx Hp H2 Ho Ha Hb.
+  destruct o as [[ox oy] oz], ca as [[ax ay] az], cb as [[bx by_] bz]. cbn [fst snd] in *.
+  unfold prim3. rewrite !Hapx. rewrite table_parity by assumption. ring.
+Qed.
+Theorem dprim3_reflect_x Ax Bx alpha beta la lb D (ty tz : list (list (list F))) (o ca cb : comp) :
+  (forall x, fapx K x = x) -> psum K alpha beta <> 0 -> 1 + 1 <> 0 ->
+  (fst (fst o) <= D)%nat -> (fst (fst ca) <= la)%nat -> (fst (fst cb) <= lb)%nat ->
+  prim3 K (dtable K (- Ax) (- Bx) alpha beta la lb D, ty, tz) o ca cb
+  = sg (fst (fst o) + fst (fst ca) + fst (fst cb))
+    * prim3 K (dtable K Ax Bx alpha beta la lb D, ty, tz) o ca cb.
+Proof.
+  intros Hapx Hp H2 Ho Ha Hb.
+  destruct o as [[ox oy] oz], ca as [[ax ay] az], cb as [[bx by_] bz]. cbn [fst snd] in *.
+  unfold prim3. rewrite !Hapx. rewrite dtable_parity by assumption. ring.
+Qed.
+
+(* ---- lifted to the contracted shell-pair blocks ---- *)
+Definition get4 (ma ia mb ib : nat) (blk : list (list (list (list F)))) : F :=
+  nth ib (nth mb (nth ia (nth ma blk []) []) []) 0.
+
+Lemma nth_norms (s : shell F) i : (i < length (comps_of s))%nat ->
+  nth i (norms K s) [] = map (norm_prim K (s_l s) (nth i (comps_of s) (0, 0, 0)%nat)) (s_exps s).
+Proof.
+  intros Hi. unfold norms.
+  rewrite (nth_indep _ [] (map (norm_prim K (s_l s) (0, 0, 0)%nat) (s_exps s))) by (now rewrite map_length).
+  apply (map_nth (fun c => map (norm_prim K (s_l s) c) (s_exps s))).
+Qed.
+
+(* two blocks built from primitive arrays that agree at (possibly different) component positions,
+   over shells with the same radial data, agree at those positions *)
+Lemma block_entry_transport (sa sb sa' sb' : shell F) (pf pf' : comp -> comp -> list (list F))
+      ma ia ia' mb ib ib' :
+  s_coeffs sa' = s_coeffs sa -> s_coeffs sb' = s_coeffs sb ->
+  comps_of sa' = comps_of sa -> comps_of sb' = comps_of sb ->
+  s_exps sa' = s_exps sa -> s_exps sb' = s_exps sb -> s_l sa' = s_l sa -> s_l sb' = s_l sb ->
+  (ma < nseg sa)%nat -> (mb < nseg sb)%nat ->
+  (ia < length (comps_of sa))%nat -> (ia' < length (comps_of sa))%nat ->
+  (ib < length (comps_of sb))%nat -> (ib' < length (comps_of sb))%nat ->
+  (forall alpha, norm_prim K (s_l sa) (nth ia' (comps_of sa) (0, 0, 0)%nat) alpha
+                 = norm_prim K (s_l sa) (nth ia (comps_of sa) (0, 0, 0)%nat) alpha) ->
+  (forall beta, norm_prim K (s_l sb) (nth ib' (comps_of sb) (0, 0, 0)%nat) beta
+                = norm_prim K (s_l sb) (nth ib (comps_of sb) (0, 0, 0)%nat) beta) ->
+  pf' (nth ia' (comps_of sa) (0, 0, 0)%nat) (nth ib' (comps_of sb) (0, 0, 0)%nat)
+  = pf (nth ia (comps_of sa) (0, 0, 0)%nat) (nth ib (comps_of sb) (0, 0, 0)%nat) ->
+  get4 ma ia' mb ib' (block_of K sa' sb' pf') = get4 ma ia mb ib (block_of K sa sb pf).
+Proof.
+  intros Hca Hcb Hka Hkb Hea Heb Hla Hlb Hma Hmb Hia Hia' Hib Hib' Hna Hnb Hpf.
+  assert (Hsa : nseg sa' = nseg sa) by (unfold nseg; now rewrite Hca).
+  assert (Hsb : nseg sb' = nseg sb) by (unfold nseg; now rewrite Hcb).
+  unfold get4.
+  rewrite (block_of_entry K sa' sb') by (rewrite ?Hsa, ?Hsb, ?Hka, ?Hkb; assumption).
+  rewrite (block_of_entry K sa sb) by assumption.
+  rewrite !nth_norms by (rewrite ?Hka, ?Hkb; assumption).
+  rewrite Hka, Hkb, Hea, Heb, Hla, Hlb, Hpf.
+  rewrite (map_ext _ _ Hna), (map_ext _ _ Hnb).
+  unfold entry_sum. rewrite Hca, Hcb. reflexivity.
+Qed.
+
+Lemma omax_swap_xy orders : omax (map swap_xy orders) = omax orders.
+Proof.
+  induction orders as [|[[ox oy] oz] os IH]; [reflexivity|].
+  cbn [map omax fold_right swap_xy fst snd] in *. unfold omax in IH. rewrite IH. lia.
+Qed.
+Lemma omax_swap_yz orders : omax (map swap_yz orders) = omax orders.
+Proof.
+  induction orders as [|[[ox oy] oz] os IH]; [reflexivity|].
+  cbn [map omax fold_right swap_yz fst snd] in *. unfold omax in IH. rewrite IH. lia.
+Qed.
+
+Lemma nth_map_in {A B} (f : A -> B) l i da db : (i < length l)%nat -> nth i (map f l) db = f (nth i l da).
+Proof. intros Hi. rewrite (nth_indep _ db (f da)) by (now rewrite map_length). apply map_nth. Qed.
+
+(* multipole-moment / overlap blocks: the block of the x<->y exchanged system (origin and orders
+   exchanged along) holds, at the exchanged component positions, the entries of the original block *)
+Theorem mm_block_swap_xy Cx Cy Cz orders sa sb io ma ia ia' mb ib ib' :
+  (io < length orders)%nat -> (ma < nseg sa)%nat -> (mb < nseg sb)%nat ->
+  (ia < length (comps_of sa))%nat -> (ia' < length (comps_of sa))%nat ->
+  (ib < length (comps_of sb))%nat -> (ib' < length (comps_of sb))%nat ->
+  nth ia' (comps_of sa) (0, 0, 0)%nat = swap_xy (nth ia (comps_of sa) (0, 0, 0)%nat) ->
+  nth ib' (comps_of sb) (0, 0, 0)%nat = swap_xy (nth ib (comps_of sb) (0, 0, 0)%nat) ->
+  get4 ma ia' mb ib'
+    (nth io (mm_block K Cy Cx Cz (map swap_xy orders) (swap_xy_shell sa) (swap_xy_shell sb)) [])
+  = get4 ma ia mb ib (nth io (mm_block K Cx Cy Cz orders sa sb) []).
+Proof.
+  intros Hio Hma Hmb Hia Hia' Hib Hib' Ea Eb.
+  unfold mm_block. cbv zeta.
+  rewrite (nth_map_in _ (map swap_xy orders) io (0, 0, 0)%nat) by (now rewrite map_length).
+  rewrite (nth_map_in swap_xy orders io (0, 0, 0)%nat) by assumption.
+  rewrite (nth_map_in _ orders io (0, 0, 0)%nat) by assumption.
+  apply block_entry_transport; try reflexivity; try assumption.
+  - intros alpha. rewrite Ea. apply norm_prim_swap_xy.
+  - intros beta. rewrite Eb. apply norm_prim_swap_xy.
+  - rewrite Ea, Eb. apply prim_array_swap_xy. apply omax_swap_xy.
+Qed.
+Theorem mm_block_swap_yz Cx Cy Cz orders sa sb io ma ia ia' mb ib ib' :
+  (io < length orders)%nat -> (ma < nseg sa)%nat -> (mb < nseg sb)%nat ->
+  (ia < length (comps_of sa))%nat -> (ia' < length (comps_of sa))%nat ->
+  (ib < length (comps_of sb))%nat -> (ib' < length (comps_of sb))%nat ->
+  nth ia' (comps_of sa) (0, 0, 0)%nat = swap_yz (nth ia (comps_of sa) (0, 0, 0)%nat) ->
+  nth ib' (comps_of sb) (0, 0, 0)%nat = swap_yz (nth ib (comps_of sb) (0, 0, 0)%nat) ->
+  get4 ma ia' mb ib'
+    (nth io (mm_block K Cx Cz Cy (map swap_yz orders) (swap_yz_shell sa) (swap_yz_shell sb)) [])
+  = get4 ma ia mb ib (nth io (mm_block K Cx Cy Cz orders sa sb) []).
+Proof.
+  intros Hio Hma Hmb Hia Hia' Hib Hib' Ea Eb.
+  unfold mm_block. cbv zeta.
+  rewrite (nth_map_in _ (map swap_yz orders) io (0, 0, 0)%nat) by (now rewrite map_length).
+  rewrite (nth_map_in swap_yz orders io (0, 0, 0)%nat) by assumption.
+  rewrite (nth_map_in _ orders io (0, 0, 0)%nat) by assumption.
+  apply block_entry_transport; try reflexivity; try assumption.
+  - intros alpha. rewrite Ea. apply norm_prim_swap_yz.
+  - intros beta. rewrite Eb. apply norm_prim_swap_yz.
+  - rewrite Ea, Eb. apply prim_array_swap_yz. apply omax_swap_yz.
+Qed.
+
+Theorem overlap_block_swap_xy sa sb ma ia ia' mb ib ib' :
+  (ma < nseg sa)%nat -> (mb < nseg sb)%nat ->
+  (ia < length (comps_of sa))%nat -> (ia' < length (comps_of sa))%nat ->
+  (ib < length (comps_of sb))%nat -> (ib' < length (comps_of sb))%nat ->
+  nth ia' (comps_of sa) (0, 0, 0)%nat = swap_xy (nth ia (comps_of sa) (0, 0, 0)%nat) ->
+  nth ib' (comps_of sb) (0, 0, 0)%nat = swap_xy (nth ib (comps_of sb) (0, 0, 0)%nat) ->
+  get4 ma ia' mb ib' (overlap_block K (swap_xy_shell sa) (swap_xy_shell sb))
+  = get4 ma ia mb ib (overlap_block K sa sb).
+Proof.
+  intros. unfold overlap_block.
+  change (hd [] ?l) with (nth 0 l []).
+  apply (mm_block_swap_xy 0 0 0 [(0, 0, 0)%nat] sa sb 0); try assumption. cbn; lia.
+Qed.
+Theorem overlap_block_swap_yz sa sb ma ia ia' mb ib ib' :
+  (ma < nseg sa)%nat -> (mb < nseg sb)%nat ->
+  (ia < length (comps_of sa))%nat -> (ia' < length (comps_of sa))%nat ->
+  (ib < length (comps_of sb))%nat -> (ib' < length (comps_of sb))%nat ->
+  nth ia' (comps_of sa) (0, 0, 0)%nat = swap_yz (nth ia (comps_of sa) (0, 0, 0)%nat) ->
+  nth ib' (comps_of sb) (0, 0, 0)%nat = swap_yz (nth ib (comps_of sb) (0, 0, 0)%nat) ->
+  get4 ma ia' mb ib' (overlap_block K (swap_yz_shell sa) (swap_yz_shell sb))
+  = get4 ma ia mb ib (overlap_block K sa sb).
+Proof.
+  intros. unfold overlap_block.
+  change (hd [] ?l) with (nth 0 l []).
+  apply (mm_block_swap_yz 0 0 0 [(0, 0, 0)%nat] sa sb 0); try assumption. cbn; lia.
+Qed.
+
+(* derivative blocks (kinetic energy: orders (2,0,0),(0,2,0),(0,0,2); momentum: (1,0,0),...) *)
+Theorem diffop_block_swap_xy orders sa sb io ma ia ia' mb ib ib' :
+  (io < length orders)%nat -> (ma < nseg sa)%nat -> (mb < nseg sb)%nat ->
+  (ia < length (comps_of sa))%nat -> (ia' < length (comps_of sa))%nat ->
+  (ib < length (comps_of sb))%nat -> (ib' < length (comps_of sb))%nat ->
+  nth ia' (comps_of sa) (0, 0, 0)%nat = swap_xy (nth ia (comps_of sa) (0, 0, 0)%nat) ->
+  nth ib' (comps_of sb) (0, 0, 0)%nat = swap_xy (nth ib (comps_of sb) (0, 0, 0)%nat) ->
+  get4 ma ia' mb ib'
+    (nth io (diffop_block K (map swap_xy orders) (swap_xy_shell sa) (swap_xy_shell sb)) [])
+  = get4 ma ia mb ib (nth io (diffop_block K orders sa sb) []).
+Proof.
+  intros Hio Hma Hmb Hia Hia' Hib Hib' Ea Eb.
+  unfold diffop_block. cbv zeta. rewrite omax_swap_xy.
+  rewrite (nth_map_in _ (map swap_xy orders) io (0, 0, 0)%nat) by (now rewrite map_length).
+  rewrite (nth_map_in swap_xy orders io (0, 0, 0)%nat) by assumption.
+  rewrite (nth_map_in _ orders io (0, 0, 0)%nat) by assumption.
+  apply block_entry_transport; try reflexivity; try assumption.
+  - intros alpha. rewrite Ea. apply norm_prim_swap_xy.
+  - intros beta. rewrite Eb. apply norm_prim_swap_xy.
+  - rewrite Ea, Eb. apply dprim_array_swap_xy.
+Qed.
+Theorem diffop_block_swap_yz orders sa sb io ma ia ia' mb ib ib' :
+  (io < length orders)%nat -> (ma < nseg sa)%nat -> (mb < nseg sb)%nat ->
+  (ia < length (comps_of sa))%nat -> (ia' < length (comps_of sa))%nat ->
+  (ib < length (comps_of sb))%nat -> (ib' < length (comps_of sb))%nat ->
+  nth ia' (comps_of sa) (0, 0, 0)%nat = swap_yz (nth ia (comps_of sa) (0, 0, 0)%nat) ->
+  nth ib' (comps_of sb) (0, 0, 0)%nat = swap_yz (nth ib (comps_of sb) (0, 0, 0)%nat) ->
+  get4 ma ia' mb ib'
+    (nth io (diffop_block K (map swap_yz orders) (swap_yz_shell sa) (swap_yz_shell sb)) [])
+  = get4 ma ia mb ib (nth io (diffop_block K orders sa sb) []).
+Proof.
+  intros Hio Hma Hmb Hia Hia' Hib Hib' Ea Eb.
+  unfold diffop_block. cbv zeta. rewrite omax_swap_yz.
+  rewrite (nth_map_in _ (map swap_yz orders) io (0, 0, 0)%nat) by (now rewrite map_length).
+  rewrite (nth_map_in swap_yz orders io (0, 0, 0)%nat) by assumption.
+  rewrite (nth_map_in _ orders io (0, 0, 0)%nat) by assumption.
+  apply block_entry_transport; try reflexivity; try assumption.
+  - intros alpha. rewrite Ea. apply norm_prim_swap_yz.
+  - intros beta. rewrite Eb. apply norm_prim_swap_yz.
+  - rewrite Ea, Eb. apply dprim_array_swap_yz.
+Qed.
 
 End Rigid.
